@@ -3,6 +3,7 @@ SPECIFICATION Spec
 CONSTANTS
   Shapes <- ShapesT
   StepVals <- Steps123
+  Broadcast = FALSE
   MaxSlices = 2
   MaxWrites = 0
   MaxReshapes = 0
